@@ -150,6 +150,7 @@ class Interp:
         self._seq = 0
         self._new_id = 0
         self.unresolved = []
+        self.loop_shape = {}
         self.pending = []
         self.record = True
         if sticky_attrs:
@@ -420,6 +421,17 @@ class Interp:
             canon[n_] = f'c{k_}'
             T.LOOPVAR_LABELS[(canon[n_], lid)] = n_
         info['canon'] = canon
+        rebound = set()
+        for b in st.body:
+            for n_ in ast.walk(b):
+                if isinstance(n_, ast.Name) and isinstance(n_.ctx, ast.Store):
+                    rebound.add(n_.id)
+                if isinstance(n_, ast.AugAssign) and isinstance(n_.target, ast.Name):
+                    rebound.add(n_.target.id)
+        for n_ in assigned:
+            if n_ in fr.env and n_ not in rebound:
+                # only element stores inside the loop: the array keeps the shape it had on entry
+                self.loop_shape[(canon.get(n_, n_), lid)] = fr.env[n_]
         if kind == 'for':
             it = self.ev(st.iter, fr)
             info['iter'] = it
@@ -480,7 +492,48 @@ class Interp:
         return TRUE
 
     def st_For(self, st, fr):
+        it = self.ev(st.iter, fr)
+        ia = it.single_atom()
+        if ia is not None and ia.kind == 'ite' and not st.orelse:
+            # for x in (A if c else B)  ==  if c: for x in A   else: for x in B
+            c, a, b = ia.args
+            if all(x.single_atom() is not None and x.single_atom().kind in ('list', 'tuple') for x in (a, b)):
+                return self._for_split(st, fr, c, a, b)
+        if ia is not None and ia.kind in ('list', 'tuple') and len(ia.args) <= 4 and not st.orelse and \
+                not any(isinstance(n, (ast.Break, ast.Continue)) for b_ in st.body for n in ast.walk(b_)):
+            return self._for_unrolled(st, fr, list(ia.args))
         return self._loop(st, fr, 'for')
+
+    def _for_unrolled(self, st, fr, items):
+        live = TRUE
+        n0 = len(self.pc)
+        for v in items:
+            self.assign(st.target, v, fr, st, quiet=True)
+            l = self.exec_block(st.body, fr)
+            if l.key != TRUE.key:
+                live = T.mk_and([live, l])
+                self.pc.append(l)
+            if live.key == FALSE.key:
+                break
+        del self.pc[n0:]
+        return live
+
+    def _for_split(self, st, fr, c, a, b):
+        env0, heap0 = fr.env, self.heap
+        outs = []
+        for cond, items in ((c, a), (T.mk_not(c), b)):
+            fr.env, self.heap = dict(env0), dict(heap0)
+            n0 = len(self.pc)
+            self.pc.append(cond)
+            live = self._for_unrolled(st, fr, list(items.single_atom().args)) if len(items.single_atom().args) <= 4 else TRUE
+            del self.pc[n0:]
+            outs.append((fr.env, self.heap, live))
+        (env_t, heap_t, live_t), (env_e, heap_e, live_e) = outs
+        fr.env = self._merge(c, env_t, env_e)
+        self.heap = self._merge(c, heap_t, heap_e)
+        if live_t.key == TRUE.key and live_e.key == TRUE.key:
+            return TRUE
+        return T.mk_or([T.mk_and([c, live_t]), T.mk_and([T.mk_not(c), live_e])])
 
     def st_While(self, st, fr):
         return self._loop(st, fr, 'while')
